@@ -134,8 +134,22 @@ class Skel:
         body = lam[2:]
         inner = binders + tuple(names)
         ipvb = pvb + tuple(pvnames)
+        # an internal definition whose value is a lambda, called by the last body form in tail position — a loop procedure, as
+        # in the expansion of a named let: the last form of THAT lambda's body is in tail position too (it is the tail of a
+        # procedure entered by a tail call)
+        loop_defs = set()
+        if applied and tail and body:
+            last_e = body[-1]
+            if isinstance(last_e, list) and last_e and isinstance(last_e[0], (Sym, PVar)):
+                loop_defs.add(last_e[0].name)
         for j, e in enumerate(body):
             last = j == len(body) - 1
+            if isinstance(e, list) and len(e) == 3 and e[0] == Sym("define") and isinstance(e[1], (Sym, PVar)) and e[1].name in loop_defs \
+                    and isinstance(e[2], list) and e[2] and e[2][0] == Sym("lambda") and "lambda" not in binders and "define" not in binders:
+                if isinstance(e[1], PVar):
+                    self.occs.append(Occ(e[1].name, "binder", cond, binders, False, "internal definition", False, pvb))
+                self.lambda_(e[2], cond, inner, True, nb, stack, applied=True, args=(), pvb=ipvb)
+                continue
             if isinstance(e, Seq):
                 # `body ...`: the last repetition is in tail position when this is the last body element
                 self.walk(e.item, cond, inner, (tail and last) if applied else False, nb, stack, True, ipvb)
